@@ -82,6 +82,29 @@ fn oracle(out: &mut Out, fi: usize, w: u32, h: u32, mips: bool, q: usize, parall
     let header_len = 4 + Header::new_image(w, h, format).byte_len();
     if pre.bytes.len() != header_len { println!("IMPL-VIOLATION pre-cancelled call wrote {} bytes: {what}", pre.bytes.len() - header_len); }
     if !pre.reports.is_empty() { println!("IMPL-VIOLATION pre-cancelled call reported progress: {what}"); }
+    // ... and the same encoder can be retried after the token is reset, producing the same file
+    {
+        let mut header = Header::new_image(w, h, format);
+        if mips { header = header.with_mipmaps(); }
+        let token = CancellationToken::new();
+        token.cancel();
+        let mut file: Vec<u8> = Vec::new();
+        let mut enc = Encoder::new(&mut file, format, &header).unwrap();
+        enc.options = opts.clone();
+        enc.mipmaps.generate = mips;
+        let view = ImageView::new(&data, Size::new(w, h), ColorFormat::RGBA_U8).unwrap();
+        let mut rep = |_p: f32| {};
+        let first = { let mut progress = Progress::new(&mut rep).with_cancellation(&token); enc.write_surface_with_progress(view, &mut progress) };
+        token.reset();
+        let second = { let mut progress = Progress::new(&mut rep).with_cancellation(&token); enc.write_surface_with_progress(view, &mut progress) };
+        let done = enc.is_done() || mips == false && enc.surface_info().is_none();
+        let fin = enc.finish();
+        if !matches!(first, Err(EncodingError::Cancelled)) || second.is_err() || fin.is_err() || !done || file != base.bytes {
+            println!("IMPL-VIOLATION a call cancelled before it started cannot be retried after reset (first {:?}, retry {:?}, finish {:?}, same bytes {}): {what}",
+                first.as_ref().map(|_| "Ok"), second.as_ref().map(|_| "Ok"), fin.as_ref().map(|_| "Ok"), file == base.bytes);
+        }
+        out.count("retry_runs");
+    }
     // cancellation at report k
     let n = base.reports.len();
     let ks: Vec<usize> = if all_k || n <= 12 { (0..n).collect() } else { let mut v = vec![0, 1, n / 2, n - 2, n - 1]; for _ in 0..4 { v.push(rng.below(n as u64) as usize); } v };
